@@ -13,16 +13,9 @@ import (
 
 func dataName(id int) string { return fmt.Sprintf("%03d.data", id) }
 
-func c18AfterGC(r *histRunner, bid, begin, end int, merge bool, before *gcBefore) error {
-	bkt := r.store.buckets[bid]
-	cfg := &r.h.Cfg
-	after := r.scanBucket(bkt)
-	keyIdx := map[string]int{}
-	for k, key := range cfg.Keys {
-		keyIdx[string(key)] = k
-	}
-	st := &bkt.GCHistory[len(bkt.GCHistory)-1]
-
+// gcInventorySafety (C17/C18): a pass changes no existing file outside [begin,end] except one earlier destination,
+// whose old content stays byte-identical; the file receiving appends and everything above the range is untouched.
+func gcInventorySafety(r *histRunner, bkt *Bucket, begin, end int, before *gcBefore) (int, error) {
 	// files outside [begin,end]: untouched, except one earlier destination whose old prefix is byte-identical
 	changedEarlier := -1
 	for name, raw := range before.raw {
@@ -36,16 +29,33 @@ func c18AfterGC(r *histRunner, bid, begin, end int, merge bool, before *gcBefore
 			continue
 		}
 		if id > end {
-			return fmt.Errorf("GC [%d,%d] changed file %s outside (above) its range (head was %d)", begin, end, name, before.head)
+			return -1, fmt.Errorf("GC [%d,%d] changed file %s outside (above) its range (head was %d)", begin, end, name, before.head)
 		}
 		if changedEarlier >= 0 {
-			return fmt.Errorf("GC [%d,%d] changed two files below its range: %s and %s", begin, end, dataName(changedEarlier), name)
+			return -1, fmt.Errorf("GC [%d,%d] changed two files below its range: %s and %s", begin, end, dataName(changedEarlier), name)
 		}
 		changedEarlier = id
 		if len(now) < len(raw) || !bytes.Equal(now[:len(raw)], raw) {
-			return fmt.Errorf("GC [%d,%d] appended to earlier file %s but its old content (%d bytes) is not preserved byte for byte (now %d bytes)", begin, end, name, len(raw), len(now))
+			return -1, fmt.Errorf("GC [%d,%d] appended to earlier file %s but its old content (%d bytes) is not preserved byte for byte (now %d bytes)", begin, end, name, len(raw), len(now))
 		}
 		r.label("dst_earlier")
+	}
+	return changedEarlier, nil
+}
+
+func c18AfterGC(r *histRunner, bid, begin, end int, merge bool, before *gcBefore) error {
+	bkt := r.store.buckets[bid]
+	cfg := &r.h.Cfg
+	after := r.scanBucket(bkt)
+	keyIdx := map[string]int{}
+	for k, key := range cfg.Keys {
+		keyIdx[string(key)] = k
+	}
+	st := &bkt.GCHistory[len(bkt.GCHistory)-1]
+
+	changedEarlier, err := gcInventorySafety(r, bkt, begin, end, before)
+	if err != nil {
+		return err
 	}
 	// files created by the pass: only inside the range or in empty slots below it (destination spilling over from the
 	// earlier file into the following free file ids); never above the range
